@@ -168,6 +168,20 @@ def run_verus_unit(name, prop, tier, keep=False):
     except vx.ExtractError as e:
         res["status"] = "undecided"
         res["undecided"] = "extraction: %s" % e
+        # scan-only rebuild: a syntactic obligation of this property that FAILS is still a violation
+        try:
+            vx.TOLERANT = True
+            u2 = build_unit(name)
+            for s in u2.scans:
+                if prop in s[0] and not s[2] and not (len(s) > 4 and s[4] == "undecided"):
+                    res["status"] = "fail"
+                    res["obligations"] += 1
+                    res["failures"].append(dict(engine="scan", unit=name, fn=s[1], label=",".join(s[0]), message="syntactic frame condition violated",
+                                                clause=s[3], extracted=None, key="scan:%s:%s" % (name, s[1]), rendered=s[3], path=None))
+        except Exception:
+            pass
+        finally:
+            vx.TOLERANT = False
         return res
     os.makedirs(SCRATCH, exist_ok=True)
     path = os.path.join(SCRATCH, "%s_%s_%d.rs" % (name, prop, os.getpid()))
